@@ -972,7 +972,7 @@ class ThurstoneMostellerPart:
         if ranks:
             team_scores = []
             for index, _ in enumerate(game):
-                if isinstance(ranks[index], int):
+                if isinstance(ranks[index], (int, float)):
                     team_scores.append(ranks[index])
                 else:
                     team_scores.append(index)
